@@ -17,6 +17,13 @@ for correlation-type, positive scalings for cosine-type measures); every (i, j) 
 unchanged.  For the rank-based measures the maps include range-compressing / -expanding ones
 (50+1e-4x, 1e-9x, 1e6x, tanh(x/1e5), exp(5x)), stacks with a common missing entry, and each
 entry is also judged against the order-only definition (exact comparisons) on the mapped values.
+
+Part T also runs minmax / geodesic on integer-valued RDMs with values 1..K for every K (value
+range K-1, and five positive affine images of each) and requires the extremes to go to exactly
+0 and 1.  Part P/N (rank-based evaluations have noise ceilings): both pool_rdm twins against
+the mean of per-RDM tie-averaged ranks, and pool_rdm / boot_noise_ceiling / cv_noise_ceiling /
+eval_fixed unchanged when every data RDM goes through its OWN strictly increasing map, and
+equal to an independent computation from the mean of per-RDM ranks.
 """
 import itertools
 import math
@@ -42,6 +49,13 @@ RULE = ('Part T: every stack of 1-2 RDM vectors over {-1,0,1,2}^3 (all 64, all 4
         'method x map of its invariance class x side (first, second, both arguments); rank-based '
         'measures additionally under range-compressing / -expanding increasing maps, on stacks with '
         'a common missing entry, and against the order-only definition on the mapped values. '
+        'Part T integer ranges: minmax / geodesic on RDMs over {1, K//2+1, K}^3, [K,a,b,c,d,1] and integer '
+        'fills for every K up to the bound, alone and as the stack of 5 positive affine images; extremes '
+        'must map to exactly 0 / 1. Part P/N: for spearman, rho-a, kendall, tau-b, tau-a the pooled RDM '
+        '(both pool_rdm implementations) of every 2-stack over {0,1,2}^3 and of generic 2-4 stacks (also '
+        'with a common missing pair), and boot / cv / eval_fixed noise ceilings of generic stacks, untreated '
+        '(against the mean-of-per-RDM-ranks definition) and with every RDM mapped by its own increasing map '
+        '(rotations of 7 harness maps, rank_transform, minmax_transform, sqrt_transform). '
         'Non-trivial = transform / measure defined for the input (non-constant RDM for '
         'minmax/geodesic, distinct quantile thresholds, non-degenerate vectors for the '
         'measure); distinct = distinct case descriptor (plus (i,j) for part I).')
@@ -56,6 +70,10 @@ ASSUMPTIONS = [
     'NaN entries: rank_transform, sqrt_transform, positive_transform and transform(fun) keep a missing '
     'entry missing; minmax / geodesic / geo-topological return all-NaN or raise on the unchanged tree '
     'and are not claimed (excluded, counted)',
+    'the pooled RDM of a rank-based method is the mean over RDMs of each RDM\'s own tie-averaged ranks '
+    '(library docstring / warning "noise ceiling for tau based on averaged ranks"); lower noise ceiling = '
+    'mean similarity of each RDM with the pool of the others, upper = with the pool of all',
+    'minmax "onto [0,1]": minimum and maximum of every RDM map to exactly 0.0 and 1.0 (division by the range)',
     'harness-applied maps are verified to be strictly increasing in floating point on each stack '
     '(pairwise order check), otherwise the case is excluded',
     'values outside the enumerated alphabets are represented by fixed generic fills only',
@@ -76,7 +94,11 @@ BOUNDS = {
                                        '{-1,0,1,2}^3 all pairs (tau-a: one side per map; kendall / tau-b: every '
                                        'second vector against all 64, every second map each, one side per map)'],
                              'generic_fills': 4, 'n_cond': [4, 5],
-                             'common_nan': 'n_cond=4: every single missing pair, 5 maps, one side per map'}},
+                             'common_nan': 'n_cond=4: every single missing pair, 5 maps, one side per map'},
+              'integer_ranges': 'K = 2..64: {1,K//2+1,K}^3 (27), [K,a,b,c,d,1] (16), 3 integer fills; each alone and as 5 affine images',
+              'pool_and_noise_ceilings': {'pool_tierA': 'all 729 2-stacks over {0,1,2}^3, one treatment each (rotating)',
+                                          'pool_fills': 'n_cond 4,5 x n_rdm 2,3,4 x 3 value kinds x 2 fills x 10 treatments; common NaN n_cond=4,n_rdm=3',
+                                          'noise_ceilings': 'n_cond 4 x n_rdm 2,3,4 and n_cond 5 x n_rdm 3; 3 value kinds; 6 treatments'}},
     'thorough': {'alphabets': ['{-1,0,1,2}^3 singles + all ordered pairs', '{0,1,2}^6 singles + 16 partners',
                                '{-1,0,1,2}^6 singles'],
                  'nan_masks': 'n=3: all masks singles, all 8x8 mask pairs on 12 partners; n=4: weight<=3',
@@ -84,7 +106,11 @@ BOUNDS = {
                  'invariance': {'tierA': ['{0,1,2}^3 all pairs', '{-1,0,1,2}^3 all pairs',
                                           '{0,1,2}^6: 27 rows x all 729'],
                                 'generic_fills': 20, 'n_cond': [4, 5, 6],
-                                'common_nan': 'n_cond=4: every single missing pair, 5 maps, one side per map'}},
+                                'common_nan': 'n_cond=4: every single missing pair, 5 maps, one side per map'},
+                 'integer_ranges': 'K = 2..128 as in quick; K = 2..64: all 729 vectors over {1,K//2+1,K}^6',
+                 'pool_and_noise_ceilings': {'pool_tierA': 'all 2-stacks over {0,1,2}^3 and {-1,0,1,2}^3, all 19683 3-stacks over {0,1,2}^3',
+                                             'pool_fills': 'as quick with 6 fills',
+                                             'noise_ceilings': 'n_cond 4,5 x n_rdm 2,3,4 x 3 value kinds x 4 fills x 10 treatments'}},
 }
 
 # ------------------------------------------------------------------ alphabets and fills
@@ -140,6 +166,9 @@ OPS = ([['rank', m] for m in RANK_METHODS] + [['sqrt', None], ['positive', None]
 # with missing entries are excluded and counted in run_T
 NAN_OPS = OPS
 NAN_UNSUPPORTED = ('minmax', 'geodesic', 'geotop')
+# operations driven over the integer-range RDMs (values 1..K for every K): the two that depend on
+# the exact image of the extremes
+RANGE_OPS = [['minmax', None], ['geodesic', None]]
 LIBNAME = {'rank': 'rank_transform', 'sqrt': 'sqrt_transform', 'positive': 'positive_transform',
            'minmax': 'minmax_transform', 'geodesic': 'geodesic_transform',
            'geotop': 'geotopological_transform', 'custom': 'transform'}
@@ -249,6 +278,11 @@ def _geotop_kind(got, cands, vecs):
 
 def _geodesic_kind(got, want, vecs):
     for r, row in enumerate(vecs):
+        hi = max(row)
+        for k, x in enumerate(row):
+            if x == hi and not close(got[r][k], want[r][k], TOL) and got[r][k] < want[r][k]:
+                return 'maximal-edge-not-removed'
+    for r, row in enumerate(vecs):
         lo = min(row)
         for k, x in enumerate(row):
             if close(got[r][k], want[r][k], TOL):
@@ -354,6 +388,15 @@ def run_T(case, ctx, vecs=None):
             ctx.outcomes.add(hash(('geotop', np.round(got, 6).tobytes())))
         else:
             ctx.dev(name, maxreldev(got, want))
+            if op == 'minmax':
+                # 'onto [0, 1]': the minimum of each RDM goes to 0 and the maximum to 1, exactly
+                # (geodesic_transform identifies the maximal edges by their weight 1)
+                if not all(float(np.max(row)) == 1.0 for row in got):
+                    ctx.fail('%s|%s|maximum-not-exactly-1' % (name, stack), case,
+                             'stack %s: maxima of the result %s' % (vecs.tolist(), [repr(float(np.max(r))) for r in got]))
+                if not all(float(np.min(row)) == 0.0 for row in got):
+                    ctx.fail('%s|%s|minimum-not-exactly-0' % (name, stack), case,
+                             'stack %s: minima of the result %s' % (vecs.tolist(), [repr(float(np.min(r))) for r in got]))
             if not allclose(got, want, TOL):
                 kind = 'value-mismatch'
                 if op == 'geodesic':
@@ -414,7 +457,47 @@ def _stack_from_src(src, seed):
             for (r, p) in src[5]:
                 vecs[r, p] = np.nan
         return vecs
+    if src[0] == 'range':
+        return range_stack(seed, *src[1:])
     raise ValueError(src)
+
+
+RESCALINGS = [(1.0, 0.0), (3.0, 0.0), (0.1, 5.0), (7.0, -2.0), (1.0 / 3.0, 1.0)]
+
+
+def range_stack(seed, n_cond, K, family, idx, rescale):
+    """integer-valued RDM with minimum 1 and maximum K (value range K-1):
+    family 'abc': the idx-th vector over the alphabet {1, K//2+1, K};
+    family 'clusters' (4 conditions): [K, a, b, c, d, 1] with a..d over {K//2+1, K-1} - the maximal pair
+        is far from everything, the detours around it are long;
+    family 'fill': fixed pseudo-random integers 1..K with the extremes forced in.
+    rescale 'none': that single RDM; 'stack5': the stack of its five positive affine images RESCALINGS"""
+    m = n_cond * (n_cond - 1) // 2
+    mid = K // 2 + 1
+    if family == 'abc':
+        digits = []
+        x = idx
+        for _ in range(m):
+            digits.append(x % 3)
+            x //= 3
+        v = np.array([(1, mid, K)[d] for d in reversed(digits)], dtype=float)
+    elif family == 'clusters':
+        assert n_cond == 4
+        bits = [(idx >> b) & 1 for b in range(4)]
+        v = np.array([K] + [(mid, K - 1)[b] for b in bits] + [1], dtype=float)
+    elif family == 'fill':
+        g = rng_for(seed, 'c17range', n_cond, K, idx)
+        v = np.round(1 + (K - 1) * g.uniform(size=m))
+        pos = g.permutation(m)
+        v[pos[0]] = 1
+        v[pos[1]] = K
+    else:
+        raise ValueError(family)
+    if rescale == 'none':
+        return v[None, :].copy()
+    if rescale == 'stack5':
+        return np.array([a * v + o for a, o in RESCALINGS])
+    raise ValueError(rescale)
 
 
 def _all_masks(m, maxw):
@@ -451,6 +534,15 @@ def _iter_T(shard):
                         if not m1 and not m2:
                             continue
                         yield ['alpha', alpha, [i, j], [m1, m2]], NAN_OPS
+    elif kind == 'range':
+        for K in range(shard['K'][0], shard['K'][1]):
+            fams = [(3, 'abc', range(27)), (4, 'clusters', range(16)), (4, 'fill', range(2)), (5, 'fill', range(1))]
+            if shard.get('full'):
+                fams = [(4, 'abc', range(729))]
+            for n_cond, fam, idxs in fams:
+                for idx in idxs:
+                    for rs in ('none', 'stack5'):
+                        yield ['range', n_cond, K, fam, idx, rs], RANGE_OPS
     elif kind == 'fill':
         n_cond, fill = shard['n_cond'], shard['fill']
         m = n_cond * (n_cond - 1) // 2
@@ -685,6 +777,208 @@ def run_L(case, ctx):
                      'spearman %s vs corr of rank_transform %s' % (a.tolist()[:3], b.tolist()[:3]))
 
 
+# ------------------------------------------------------------------ pooled RDMs and noise ceilings
+# A rank-based evaluation also has a noise ceiling; it is built from the pooled RDM (mean over RDMs of
+# each RDM's own tie-averaged ranks).  Each data RDM may go through its OWN strictly increasing map.
+PER_RDM = {
+    '0.01x': lambda v: 0.01 * v, '7x': lambda v: 7.0 * v, 'cube': lambda v: v ** 3, 'exp': np.exp,
+    '50+1e-4x': lambda v: 50.0 + 1e-4 * v, '2x+1': lambda v: 2.0 * v + 1.0, 'id': lambda v: v + 0.0,
+}
+PER_RDM_ORDER = list(PER_RDM)
+VARIANTS = (['rot%d' % k for k in range(len(PER_RDM_ORDER))] +
+            ['lib:rank_transform', 'lib:minmax_transform', 'lib:sqrt_transform'])
+QUICK_VARIANTS = ['rot1', 'rot3', 'rot5', 'lib:rank_transform', 'lib:minmax_transform', 'lib:sqrt_transform']
+METHOD_CLASS = {'spearman': 'spearman/rho-a', 'rho-a': 'spearman/rho-a', 'kendall': 'kendall/tau-b',
+                'tau-b': 'kendall/tau-b', 'tau-a': 'tau-a'}
+
+
+def _variant_ok(variant, vecs):
+    """is the variant an admissible strictly increasing treatment of this stack"""
+    if variant == 'lib:sqrt_transform':
+        return bool(np.nanmin(vecs) >= 0)
+    if variant == 'lib:minmax_transform':   # undefined for constant RDMs and RDMs with missing entries
+        return not np.isnan(vecs).any() and all(np.max(r) > np.min(r) for r in vecs)
+    return True
+
+
+def _apply_variant(variant, vecs):
+    """returns (RDMs object of the treated stack, None) or (None, reason to exclude)"""
+    import rsatoolbox.rdm as rr
+    if variant.startswith('lib:'):
+        return getattr(rr, variant[4:])(rr.RDMs(vecs.copy())), None
+    k = int(variant[3:])
+    out = np.array([PER_RDM[PER_RDM_ORDER[(r + k) % len(PER_RDM_ORDER)]](row.copy()) for r, row in enumerate(vecs)])
+    if not all(ref.same_order(a, b) for a, b in zip(vecs, out)):
+        return None, 'harness map not strictly increasing in floating point on this stack'
+    return rr.RDMs(out), None
+
+
+def _pool_twins():
+    from rsatoolbox.util import inference_util, pooling
+    return (('inference_util', inference_util.pool_rdm), ('pooling', pooling.pool_rdm))
+
+
+def run_P(case, ctx, vecs=None, base=None):
+    """pooled RDM of a rank-based method.  variant 'base': both pool_rdm twins against the mean of the
+    per-RDM tie-averaged ranks; other variants: the pool of the stack whose RDMs went through
+    (different) strictly increasing maps must equal the pool of the untreated stack"""
+    import rsatoolbox.rdm as rr
+    method, variant = case['method'], case['variant']
+    if vecs is None:
+        vecs = _stack_from_src(case['src'], ctx.seed)
+    vecs = np.array(vecs, dtype=float)
+    if variant != 'base' and not _variant_ok(variant, vecs):
+        ctx.exclude('per-RDM map not admissible for this stack (negative / constant / missing entries)')
+        return base
+    want = ref.pooled_ranks(vecs.tolist())
+    cls = METHOD_CLASS[method]
+    nan = ',nan' if np.isnan(vecs).any() else ''
+    with ctx.guard('pool_rdm|method=%s%s' % (cls, nan), case):
+        if variant == 'base':
+            data = rr.RDMs(vecs.copy())
+        else:
+            data, why = _apply_variant(variant, vecs)
+            if data is None:
+                ctx.exclude(why)
+                return base
+        if base is None and variant != 'base':
+            base = {tw: np.asarray(f(rr.RDMs(vecs.copy()), method=method).get_vectors(), dtype=float)
+                    for tw, f in _pool_twins()}
+        out = {}
+        for tw, f in _pool_twins():
+            _register(ctx, dict(case, twin=tw))
+            got = np.asarray(f(data, method=method).get_vectors(), dtype=float)
+            out[tw] = got
+            if got.shape != (1, vecs.shape[1]):
+                ctx.fail('pool_rdm|%s|shape' % tw, case, 'shape %r' % (got.shape,))
+                continue
+            ctx.outcomes.add(hash((np.round(np.nan_to_num(got, nan=-7.0), 6) + 0.0).tobytes()))
+            if variant == 'base':
+                ctx.dev('pool/' + tw, maxreldev(got[0], want))
+                if not allclose(got[0], want, TOL):
+                    ctx.fail('pool_rdm|%s,method=%s|differs-from-mean-of-per-RDM-ranks' % (tw, cls), case,
+                             '%s pool of %s: got %s, mean of the per-RDM ranks %s' % (
+                                 method, vecs.tolist(), got[0].tolist(), want))
+            else:
+                ctx.dev('pool-inv/' + tw, maxreldev(got, base[tw]))
+                if not allclose(got, base[tw], TOL):
+                    ctx.fail('pool_rdm|%s,method=%s|changed-under-per-RDM-increasing-maps' % (tw, cls), case,
+                             '%s pool of %s is %s; after %s (stack %s) it is %s' % (
+                                 method, vecs.tolist(), base[tw].tolist(), variant,
+                                 np.asarray(data.get_vectors()).tolist(), got.tolist()))
+        if variant == 'base':
+            base = out
+    return base
+
+
+def _ceilings(data, model, method, conds):
+    """the three library noise ceilings of one data stack + the model evaluations"""
+    from rsatoolbox.inference import boot_noise_ceiling, cv_noise_ceiling, eval_fixed
+    from rsatoolbox.inference.crossvalsets import sets_leave_one_out_rdm
+    out = {}
+    out['boot_noise_ceiling'] = np.array(boot_noise_ceiling(data, method=method), dtype=float)
+    _, test_set, ceil_set = sets_leave_one_out_rdm(data)
+    idx = np.array(conds)
+    test_sub = [(t[0].subset_pattern('index', idx), idx) for t in test_set]
+    out['cv_noise_ceiling'] = np.array(cv_noise_ceiling(data, ceil_set, test_sub, method=method), dtype=float)
+    res = eval_fixed(model, data, method=method)
+    out['eval_fixed'] = np.array(res.noise_ceiling, dtype=float).ravel()
+    out['evaluations'] = np.array(res.evaluations, dtype=float).ravel()
+    return out
+
+
+def run_N(case, ctx, base=None):
+    """noise ceilings (boot_noise_ceiling, cv_noise_ceiling on a pattern subset, eval_fixed) of a
+    rank-based method.  variant 'base': against the independent computation from the mean of per-RDM
+    ranks; other variants: unchanged when every data RDM goes through its own increasing map"""
+    import rsatoolbox.rdm as rr
+    from rsatoolbox.model import ModelFixed
+    method, variant = case['method'], case['variant']
+    _, n_cond, fill, vk, n_vec, _ = case['src']
+    vecs = np.array(_stack_from_src(case['src'], ctx.seed), dtype=float)
+    if variant != 'base' and not _variant_ok(variant, vecs):
+        ctx.exclude('per-RDM map not admissible for this stack (negative / constant / missing entries)')
+        return base
+    conds = list(range(n_cond - 1))
+
+    def sim(a, b):
+        if mref.is_degenerate(method, a) or mref.is_degenerate(method, b):
+            return None
+        return mref.similarity(method, a, b)
+    want = {'boot_noise_ceiling': ref.noise_ceiling(vecs.tolist(), sim)}
+    want['eval_fixed'] = want['boot_noise_ceiling']
+    want['cv_noise_ceiling'] = ref.noise_ceiling(vecs.tolist(), sim, ref.pair_positions(n_cond, conds))
+    if any(w is None for w in want.values()):
+        ctx.exclude('noise ceiling undefined (constant pooled or data RDM)')
+        return base
+    mvec = generic_stack(ctx.seed, n_cond, fill, 'signed', 1, tag='M')
+    with ctx.guard('noise_ceiling|rank-based', case):
+        model = ModelFixed('m', rr.RDMs(mvec))
+        if base is None and variant != 'base':
+            base = _ceilings(rr.RDMs(vecs.copy()), model, method, conds)
+        if variant == 'base':
+            data = rr.RDMs(vecs.copy())
+        else:
+            data, why = _apply_variant(variant, vecs)
+            if data is None:
+                ctx.exclude(why)
+                return base
+        got = _ceilings(data, model, method, conds)
+        for name in ('boot_noise_ceiling', 'cv_noise_ceiling', 'eval_fixed'):
+            ctx.case(dict(case, routine=name))
+            ctx.outcome(np.round(got[name], 9).tolist())
+            if got[name].shape != (2,):
+                ctx.fail('noise_ceiling|%s|shape' % name, case, 'shape %r' % (got[name].shape,))
+                continue
+            if variant == 'base':
+                ctx.dev('nc/' + name, maxreldev(got[name], want[name]))
+                if not allclose(got[name], want[name], TOL):
+                    ctx.fail('noise_ceiling|%s|differs-from-definition' % name, case,
+                             '%s (lower, upper) of %s: got %s, from the mean of per-RDM ranks %s' % (
+                                 method, vecs.tolist(), got[name].tolist(), list(want[name])))
+            else:
+                ctx.dev('nc-inv/' + name, maxreldev(got[name], base[name]))
+                if not allclose(got[name], base[name], TOL):
+                    ctx.fail('noise_ceiling|%s|changed-under-per-RDM-increasing-maps' % name, case,
+                             '%s (lower, upper) of %s is %s; after %s it is %s' % (
+                                 method, vecs.tolist(), base[name].tolist(), variant, got[name].tolist()))
+        if variant != 'base':
+            ctx.case(dict(case, routine='evaluations'))
+            if not allclose(got['evaluations'], base['evaluations'], TOL):
+                ctx.fail('eval_fixed|evaluations|changed-under-per-RDM-increasing-maps', case,
+                         '%s evaluations %s; after %s of the data: %s' % (
+                             method, base['evaluations'].tolist(), variant, got['evaluations'].tolist()))
+        else:
+            base = got
+    return base
+
+
+def _iter_P(shard):
+    """yields (src, variants) for the stacks of one P shard"""
+    if shard['t'] == 'alpha':
+        V = alphabet_vectors(shard['alpha'])
+        n, k = len(V), shard['k']
+        cnt = 0
+        for i in range(shard['rows'][0], shard['rows'][1]):
+            for rest in itertools.product(range(n), repeat=k - 1):
+                cnt += 1
+                # one treatment per stack, rotating through all of them
+                yield ['alpha', shard['alpha'], [i] + list(rest), None], [VARIANTS[(cnt + i) % len(VARIANTS)]]
+    elif shard['t'] == 'fill':
+        n_cond, n_vec = shard['n_cond'], shard['n_vec']
+        m = n_cond * (n_cond - 1) // 2
+        for fill in range(shard['fills']):
+            for vk in ('signed', 'ties', 'nonneg'):
+                yield ['fill', n_cond, fill, vk, n_vec, None], VARIANTS
+                if n_cond == 4 and n_vec == 3:
+                    # every single condition pair missing in all RDMs
+                    for pos in range(m):
+                        yield (['fill', n_cond, fill, vk, n_vec, [[r, pos] for r in range(n_vec)]],
+                               ['rot%d' % (pos % 7), 'lib:rank_transform', 'lib:sqrt_transform'])
+    else:
+        raise ValueError(shard)
+
+
 # ------------------------------------------------------------------ shards
 def shards(tier, seed):
     th = tier == 'thorough'
@@ -762,6 +1056,26 @@ def shards(tier, seed):
                     out.append({'kind': 'Ifill', 'method': method, 'sigma': sigma, 'n_cond': n_cond,
                                 'fills': [f0, f0 + step], 'sides': 'all' if th or not slow else 'rot',
                                 'part': part})
+    # ---- T: integer ranges 1..K for every K (exact image of the extremes under minmax, geodesic)
+    kmax = 129 if th else 65
+    for a in range(2, kmax, 8 if th else 7):
+        out.append({'kind': 'T', 't': 'range', 'K': [a, min(kmax, a + (8 if th else 7))]})
+    if th:
+        for a in range(2, 65, 2):
+            out.append({'kind': 'T', 't': 'range', 'K': [a, a + 2], 'full': True})
+    # ---- P: pooled RDMs of the rank-based methods (both pool_rdm twins), N: noise ceilings
+    for alpha, k, step in ([('012^3', 2, 9), ('m1012^3', 2, 8), ('012^3', 3, 1)] if th else [('012^3', 2, 9)]):
+        for a in range(0, len(alphabet_vectors(alpha)), step):
+            out.append({'kind': 'P', 't': 'alpha', 'alpha': alpha, 'k': k, 'rows': [a, a + step]})
+    for n_cond in (4, 5):
+        for n_vec in (2, 3, 4):
+            out.append({'kind': 'P', 't': 'fill', 'n_cond': n_cond, 'n_vec': n_vec, 'fills': 6 if th else 2})
+            if not th and n_cond == 5 and n_vec != 3:
+                continue
+            for method in RANK_BASED:
+                for fill in range(4 if th else 1):
+                    out.append({'kind': 'N', 'method': method, 'n_cond': n_cond, 'n_vec': n_vec, 'fill': fill,
+                                'variants': VARIANTS if th else QUICK_VARIANTS})
     # ---- L: spearman == corr of rank-transformed
     out.append({'kind': 'L', 'src': ['alpha', '012^3', [0, 27]]})
     out.append({'kind': 'L', 'src': ['alpha', 'm1012^3', [0, 64]]})
@@ -829,6 +1143,23 @@ def run_shard(shard, ctx):
                                 break
     elif kind == 'L':
         run_L(shard, ctx)
+    elif kind == 'P':
+        for src, variants in _iter_P(shard):
+            vecs = _stack_from_src(src, ctx.seed)
+            for method in RANK_BASED:
+                base = None
+                for variant in ['base'] + list(variants):
+                    base = run_P({'kind': 'P', 'src': src, 'method': method, 'variant': variant}, ctx, vecs, base)
+                    if base is None:
+                        break
+    elif kind == 'N':
+        for vk in ('signed', 'ties', 'nonneg'):
+            src = ['fill', shard['n_cond'], shard['fill'], vk, shard['n_vec'], None]
+            base = None
+            for variant in ['base'] + list(shard.get('variants', VARIANTS)):
+                base = run_N({'kind': 'N', 'src': src, 'method': shard['method'], 'variant': variant}, ctx, base)
+                if base is None:
+                    break
     else:
         raise ValueError(kind)
 
@@ -842,5 +1173,9 @@ def run_case(case, ctx):
         run_I(case, ctx)
     elif kind == 'L':
         run_L(case, ctx)
+    elif kind == 'P' and 'variant' in case:
+        run_P({k: v for k, v in case.items() if k != 'twin'}, ctx)
+    elif kind == 'N' and 'variant' in case:
+        run_N({k: v for k, v in case.items() if k != 'routine'}, ctx)
     else:
         run_shard(case, ctx)
